@@ -152,6 +152,31 @@ def _file_events(func):
     return cfg, events
 
 
+def _provenance_text(func, cfg, nid, e, depth=0):
+    """Source text of a path expression with single-definition locals expanded."""
+    if e is None or depth > 5:
+        return ''
+    if isinstance(e, ast.Name):
+        defs = cfg.defs_at(nid, e.id)
+        out = []
+        for d in defs:
+            dn = cfg.nodes[d]
+            if dn.kind == 'stmt' and isinstance(dn.ast, ast.Assign):
+                v = dn.ast.value
+                if isinstance(dn.ast.targets[0], ast.Tuple) and isinstance(v, ast.Call):
+                    out.append(unparse(v))
+                else:
+                    out.append(_provenance_text(func, cfg, d, v, depth + 1))
+        return ' | '.join(out) if out else e.id
+    txt = unparse(e)
+    for sub in ast.walk(e):
+        if isinstance(sub, ast.Name) and sub is not e:
+            inner = _provenance_text(func, cfg, nid, sub, depth + 1)
+            if inner and inner != sub.id:
+                txt += ' <- ' + inner
+    return txt
+
+
 def _stream_closes(func, cfg, open_ev):
     """CFG nodes at which the stream opened by `open_ev` is closed."""
     call = open_ev['call']
@@ -198,6 +223,21 @@ def rule_T2(ctx, rid='T2'):
         q = func.qualname
         renames_ok = [e for e in events if e['kind'] == 'rename' and e['atomic'] and
                       e['src'][0] == TEMP and e['dst'][0] == LIVE]
+        # (g) the temporary file lives next to the live file (same directory => same file
+        # system, which is what makes the rename atomic): its path is derived from the live
+        # path, not taken from tempfile's default directory
+        for e in wopens:
+            if e['pclass'] != TEMP:
+                continue
+            pe = e['call'].args[0] if e['call'].args else None
+            txt = _provenance_text(func, cfg, e['node'], pe)
+            foreign = 'tempfile.' in txt and 'dir=' not in txt
+            ctx.ob(rid, '%s:temp-next-to-live' % q, not foreign, e['where'],
+                   'the temporary path is derived from the live path (same directory)'
+                   if not foreign else
+                   'the temporary file is created in tempfile\'s default directory (`%s`): the '
+                   'rename onto the live path can cross file systems and is then not atomic'
+                   % txt[:60])
         # (a) a file opened for writing is a temp path
         for e in wopens:
             ok = e['pclass'] != LIVE
